@@ -99,6 +99,12 @@ Fixpoint run_op (depth : nat) (op : bytes) (input : arg) : arg :=
               | AL [alg; d; r; e] =>
                   with_desc "PKIX public key" (pkix_attrs (arcs_of alg) (opt_bytes d) (opt_bytes r) (ecparams_of e))
               | _ => Err "asn1" end)
+  else if bytes_eqb op (bs "certkey") then
+    (* the same child through file.Inspect of the certificate as DER, PEM, keystore entry *)
+    obs_info (match i1 with
+              | AL [alg; d; r; e] => certificate_public_key (arcs_of alg) (opt_bytes d) (opt_bytes r) (ecparams_of e)
+              | _ => Err "asn1" end)
+  else if bytes_eqb op (bs "pgpkey") then obs_info (pgp_public_key (arg_bytes i0))
   else if bytes_eqb op (bs "certspki") then
     (* getCertificateInfo: the "Public key" child built from the certificate's SubjectPublicKeyInfo *)
     obs_info (match i1 with
